@@ -648,37 +648,112 @@ type kindSite struct {
 	why      []string
 }
 
-func navSetOf(conds []edgeCond, current ssa.Value) (hasMap, hasList bool) {
-	for _, dc := range conds {
-		cond, neg := unwrapNot(dc.cond)
-		x, ts, ok := typeTestsOf(cond)
-		if !ok || x != current || dc.taken != neg {
-			continue // only failed tests say what the node would have navigated into
+// kindExclusion is a forward must-analysis over fn: for every block, which container kinds the
+// dynamic type of current is known NOT to be when the block is entered. A failed test for a
+// type excludes that type's kind; a successful test for one kind excludes the other (the
+// kinds are disjoint). Joins intersect, so the result holds on every path.
+type kindFact struct{ notMap, notList bool }
+
+func kindExclusion(fn *ssa.Function, current ssa.Value) map[*ssa.BasicBlock]kindFact {
+	edge := func(from, to *ssa.BasicBlock, f kindFact) kindFact {
+		ifi, ok := from.Instrs[len(from.Instrs)-1].(*ssa.If)
+		if !ok || from.Succs[0] == from.Succs[1] {
+			return f
 		}
-		for _, t := range ts {
-			switch t.Underlying().(type) {
-			case *types.Map:
-				hasMap = true
-			case *types.Slice:
-				hasList = true
+		taken := from.Succs[0] == to
+		for _, dc := range append([]edgeCond{{cond: ifi.Cond, taken: taken, at: ifi}}, shortCircuitOperands(edgeCond{cond: ifi.Cond, taken: taken, at: ifi}, 0)...) {
+			cond, neg := unwrapNot(dc.cond)
+			x, ts, ok := typeTestsOf(cond)
+			if !ok || x != current {
+				continue
+			}
+			holds := dc.taken != neg
+			anyMap, anyList, other := false, false, false
+			for _, t := range ts {
+				switch t.Underlying().(type) {
+				case *types.Map:
+					anyMap = true
+				case *types.Slice:
+					anyList = true
+				default:
+					other = true
+				}
+			}
+			if holds {
+				// the value has one of the tested types
+				if !other {
+					if !anyMap {
+						f.notMap = true
+					}
+					if !anyList {
+						f.notList = true
+					}
+				}
+			} else {
+				if anyMap {
+					f.notMap = true
+				}
+				if anyList {
+					f.notList = true
+				}
+			}
+		}
+		return f
+	}
+	in := map[*ssa.BasicBlock]kindFact{}
+	for _, b := range fn.Blocks {
+		in[b] = kindFact{true, true}
+	}
+	if len(fn.Blocks) > 0 {
+		in[fn.Blocks[0]] = kindFact{}
+	}
+	for changed := true; changed; {
+		changed = false
+		for _, b := range fn.Blocks {
+			if len(b.Preds) == 0 {
+				continue
+			}
+			f := kindFact{true, true}
+			for _, pb := range b.Preds {
+				e := edge(pb, b, in[pb])
+				f.notMap = f.notMap && e.notMap
+				f.notList = f.notList && e.notList
+			}
+			if f != in[b] {
+				in[b] = f
+				changed = true
+			}
+		}
+	}
+	return in
+}
+
+// navSetOf: the container kinds excluded for some type-tested parameter whenever block b runs
+// (what the node would have navigated into), and that parameter.
+func navSetOf(fn *ssa.Function, b *ssa.BasicBlock) (current ssa.Value, hasMap, hasList bool) {
+	seen := map[ssa.Value]bool{}
+	for _, bb := range fn.Blocks {
+		ifi, ok := bb.Instrs[len(bb.Instrs)-1].(*ssa.If)
+		if !ok {
+			continue
+		}
+		for _, dc := range append([]edgeCond{{cond: ifi.Cond, taken: true}}, shortCircuitOperands(edgeCond{cond: ifi.Cond, taken: true}, 0)...) {
+			cond, _ := unwrapNot(dc.cond)
+			x, _, ok := typeTestsOf(cond)
+			if !ok || seen[x] {
+				continue
+			}
+			if _, isP := x.(*ssa.Parameter); !isP {
+				continue
+			}
+			seen[x] = true
+			f := kindExclusion(fn, x)[b]
+			if f.notMap || f.notList {
+				current, hasMap, hasList = x, f.notMap, f.notList
 			}
 		}
 	}
 	return
-}
-
-// testedParam: the parameter whose dynamic type a dominating condition tests.
-func testedParam(conds []edgeCond) ssa.Value {
-	var current ssa.Value
-	for _, dc := range conds {
-		cond, _ := unwrapNot(dc.cond)
-		if x, _, ok := typeTestsOf(cond); ok {
-			if _, isP := x.(*ssa.Parameter); isP {
-				current = x
-			}
-		}
-	}
-	return current
 }
 
 func ruleNKind(c *engine.Context) *report.Rule {
@@ -808,13 +883,11 @@ func ruleNKind(c *engine.Context) *report.Rule {
 				}
 				ks := &kindSite{fn: fn, alloc: call}
 				sites = append(sites, ks)
-				conds := dominatingConds(b)
-				current := testedParam(conds)
+				current, m, l := navSetOf(fn, b)
 				if current == nil {
 					ks.why = append(ks.why, "no failed type test of a parameter dominates the error")
 					continue
 				}
-				m, l := navSetOf(conds, current)
 				switch {
 				case m && l:
 					ks.nav = "map+list"
@@ -861,13 +934,11 @@ func ruleNKind(c *engine.Context) *report.Rule {
 				ks := &kindSite{fn: fn, alloc: al}
 				sites = append(sites, ks)
 				// current = the parameter that was type-tested
-				conds := dominatingConds(b)
-				current := testedParam(conds)
+				current, m, l := navSetOf(fn, b)
 				if current == nil {
 					ks.why = append(ks.why, "no failed type test of a parameter dominates the error")
 					continue
 				}
-				m, l := navSetOf(conds, current)
 				switch {
 				case m && l:
 					ks.nav = "map+list"
@@ -1050,24 +1121,38 @@ func ruleNDeepest(c *engine.Context) *report.Rule {
 				}
 				r.Instances++
 				ok2 := true
+				// every value that flows back into the accumulator from inside the loop is the
+				// accumulator itself, the helper's result, or a phi (branch merge, inner loop) of such
+				// values; a fresh accumulator started inside the loop and merged by hand is not
+				seenV := map[ssa.Value]bool{ph: true}
+				var fromInside func(e ssa.Value) bool
+				fromInside = func(e ssa.Value) bool {
+					if seenV[e] {
+						return true
+					}
+					seenV[e] = true
+					if ip, isPhi := e.(*ssa.Phi); isPhi && l.Blocks[ip.Block()] {
+						for _, e2 := range ip.Edges {
+							if !fromInside(e2) {
+								return false
+							}
+						}
+						return true
+					}
+					if ex, isEx := e.(*ssa.Extract); isEx {
+						if call, isCall := ex.Tuple.(*ssa.Call); isCall && call.Call.StaticCallee() == helper {
+							return true
+						}
+					}
+					return false
+				}
 				for i, e := range ph.Edges {
 					if !l.Blocks[l.Header.Preds[i]] {
 						continue // initial value
 					}
-					if e == ssa.Value(ph) {
-						continue
+					if !fromInside(e) {
+						ok2 = false
 					}
-					// inner-loop phi carrying the same accumulator is fine
-					if ip, isPhi := e.(*ssa.Phi); isPhi && l.Blocks[ip.Block()] {
-						continue
-					}
-					ex, isEx := e.(*ssa.Extract)
-					if isEx {
-						if call, isCall := ex.Tuple.(*ssa.Call); isCall && call.Call.StaticCallee() == helper {
-							continue
-						}
-					}
-					ok2 = false
 				}
 				r.Oblige(ok2)
 				r.Sample("%s: error accumulator of loop #%d updated only by %s: %v", load.FuncName(fn), loopOrdinal(fn, l), helper.Name(), ok2)
